@@ -2,7 +2,13 @@
 import sx
 import textgen as T
 from common import Case
-from C12 import agree, canon
+from C12 import agree as _agree12, canon
+
+
+def agree(case, impl, model):
+    if case.startswith('(wrfail'):
+        return impl == '(r oracle-only ok)'
+    return _agree12(case, impl, model)
 
 ID = 'C04'
 RULE = ('read cases: byte streams assembled from valid lines of one record type, malformed lines, blank lines and '
@@ -96,6 +102,11 @@ def gen(rng, tier):
             _miss = [k for k in ptoks if k not in pt]
             pt1 = {k: pt.get(k, 'none') for k in ptoks}
             yield Case(sx.dump(['read', t, sx.hexs(prefix) if prefix else 'none', sx.hexs(data), ['frag'] + plan, T.ptab_sx(pt1)]), bool(nt), t)
+    # Writer over a sink whose k-th write call fails: records reported Ok (and only those) must be in the output
+    for _ in range(40 if tier == 'quick' else 800):
+        t = rng.choice(['gr', 'bed3', 'bed6', 'bgi'])
+        recs = [T.rand_record(rng, t) for _i in range(rng.randint(2, 8))]
+        yield Case(sx.dump(['wrfail', t, ['recs'] + recs, rng.randint(1, 2 * len(recs) + 1)]), True, 'wrfail')
     yield Case(sx.dump(['skiprun', 100000 if tier == 'quick' else 1000000, sx.hexs(b'#'), sx.hexs(b'chr1\t1\t2\n')]), True, 'skiprun')
     yield Case(sx.dump(['skiprun', 3, sx.hexs(b'track'), sx.hexs(b'chr1\t1\t2')]), True, 'skiprun')
 
